@@ -2965,7 +2965,7 @@ func marshalDefault(in []any) (x Stack, c Condition, err error) {
 func deenvelopeSingleStack(in []any) []any {
 	if len(in) == 1 {
 		for {
-			if inner, ok := in[0].([]any); ok {
+			if inner, ok := in[0].([]any); ok && len(inner) > 0 {
 				in = inner
 			} else {
 				break
